@@ -134,6 +134,8 @@ func runC15(c *Ctx) {
 	checkRootDirs(c)
 	checkCommitIdentsClean(c)
 	checkEditorFileInStorage(c)
+	// a file id that is not a git hash never reaches a tree (shared with C07)
+	checkHashIsValidCanonical(c, "R7.12")
 	checkTreeNamesAndGitDir(c)
 }
 
@@ -848,6 +850,8 @@ func runC14(c *Ctx) {
 	checkIndexClearComplete(c)
 	// a removal whose last write was lost is repaired at the next start: any count mismatch rebuilds (shared with C11)
 	checkLoadHeuristic(c)
+	// a failed removal leaves the sub-cache usable: locks released on every exit (shared with C18)
+	checkMutatorLocksPaired(c)
 	// "only it": the prefix given to Remove designates one entity or the removal is refused (shared with C13)
 	checkC13Scans(c)
 
